@@ -44,6 +44,8 @@ type Cfg struct {
 	Shared bool `json:"shared,omitempty"`
 	// Builder: the handler value is put together with WithStore/WithTransformer/WithDefault.
 	Builder bool `json:"builder,omitempty"`
+	// TypedVals: the custom transformer returns map[string]store.Value / []store.Value.
+	TypedVals bool `json:"typedVals,omitempty"`
 }
 
 // Mut is one mutation.
@@ -107,6 +109,18 @@ func customTransform(cfg Cfg) func(id string, v interface{}) (interface{}, error
 					out[k] = x
 				}
 			}
+			if cfg.TypedVals {
+				// hand the handler its own value type (the diff then skips the JSON round trip)
+				tv := map[string]store.Value{}
+				for k, x := range out {
+					var v store.Value
+					if err := json.Unmarshal(x, &v); err != nil {
+						return out, nil
+					}
+					tv[k] = v
+				}
+				return tv, nil
+			}
 			return out, nil
 		}
 		var l []json.RawMessage
@@ -121,6 +135,17 @@ func customTransform(cfg Cfg) func(id string, v interface{}) (interface{}, error
 			if string(x) != "null" {
 				out = append(out, x)
 			}
+		}
+		if cfg.TypedVals {
+			tv := []store.Value{}
+			for _, x := range out {
+				var v store.Value
+				if err := json.Unmarshal(x, &v); err != nil {
+					return out, nil
+				}
+				tv = append(tv, v)
+			}
+			return tv, nil
 		}
 		return out, nil
 	}
@@ -628,6 +653,7 @@ func genCfg(storeKind string) *rapid.Generator[Cfg] {
 		c.Trans = rapid.SampledFrom([]string{"none", "id", "custom"}).Draw(t, "trans")
 		c.Shared = c.Trans == "id" && rapid.IntRange(0, 2).Draw(t, "shared") == 0
 		c.Builder = rapid.Bool().Draw(t, "builder")
+		c.TypedVals = c.Trans == "custom" && rapid.IntRange(0, 2).Draw(t, "typedvals") == 0
 		if storeKind == "badger" && c.Type == "collection" && c.Trans == "none" {
 			c.Trans = "id"
 		}
